@@ -21,6 +21,8 @@ RULES = {
     'C08.c': 'the listing hides "$$" keys unless its flag is set, and the Keys arm derives the flag from '
              'the administrator flag of the session',
     'C08.d': 'the tombstone path refuses the database token key before any effect, for every caller',
+    'C08.f': 'no argument of a client command can carry a line break into the node-to-node stream, where the text after it would '
+             'run with administrator rights and could rewrite $$ keys (same rule as C09.e)',
     'C08.e': 'the rp wrapper re-enters the dispatcher with the client it received',
 }
 
@@ -126,6 +128,12 @@ def credential_reader_ok(m, ex, ev):
 
 
 def run(ck, m):
+    _run(ck, m)
+    from props import C09
+    C09.framing_rule(ck, m, rule='C08.f')
+
+
+def _run(ck, m):
     for k, v in RULES.items():
         ck.rule(k, v)
     ex = m.explorer()
